@@ -62,7 +62,7 @@ def run(chk, tier, seed):
                 for kind in ('only_glob', 'only_match'):
                     if r[kind]:
                         chk.violation(dict(obligation='C06.bounded.globmatch(REALPATH)_applies_the_same_symlink_rule_as_glob', tree=r['tree'], pattern=r['pattern'], fl=r['fl'], kind=kind,
-                                           witness=r[kind][0]),
+                                           witness=r[kind][0], link_is_written=str(trees.link_is_written(specs[r['tree']], r[kind][0], r['pattern']))),
                                       f'tree {r["tree"]} pattern {r["pattern"]!r} flags {r["fl"]}: ' + (f'glob returns {r[kind][:4]}, globmatch(REALPATH) rejects' if kind == 'only_glob'
                                                                                                    else f'globmatch(REALPATH) accepts {r[kind][:4]}, glob does not return them'),
                                       f"import sys; sys.path.insert(0, {REPO!r}); sys.path.insert(0, '/verif')\nfrom wcmatch import glob\nfrom vlib.harness import trees\n"
